@@ -14,6 +14,7 @@ import (
 	"google.golang.org/protobuf/proto"
 	"google.golang.org/protobuf/types/known/anypb"
 
+	"github.com/refraction-networking/conjure/internal/verifhook"
 	"github.com/refraction-networking/conjure/pkg/core"
 	"github.com/refraction-networking/conjure/pkg/phantoms"
 	"github.com/refraction-networking/conjure/pkg/station/liveness"
@@ -141,6 +142,7 @@ func (rm *RegistrationManager) ingestRegistration(reg *DecoyRegistration) {
 	}
 
 	if rm.RegistrationExists(reg) {
+		verifhook.Yield("ingest:after-exists")
 		// log phantom IP, shared secret, ipv6 support
 		logger.Debugf("Duplicate registration: %v %s\n", reg.IDString(), reg.RegistrationSource)
 		Stat().AddDupReg()
@@ -157,6 +159,7 @@ func (rm *RegistrationManager) ingestRegistration(reg *DecoyRegistration) {
 		return
 	}
 
+	verifhook.Yield("ingest:after-exists")
 	// log phantom IP, shared secret, ipv6 support
 	logger.Debugf("New registration: %s %v\n", reg.IDString(), reg.String())
 
@@ -167,6 +170,7 @@ func (rm *RegistrationManager) ingestRegistration(reg *DecoyRegistration) {
 		Stat().AddErrReg()
 		rm.AddErrReg()
 	}
+	verifhook.Yield("ingest:after-track")
 
 	// If registration is trying to connect to a covert address that
 	// is blocklisted consider registration INVALID and continue
@@ -230,6 +234,7 @@ func (rm *RegistrationManager) ingestRegistration(reg *DecoyRegistration) {
 
 	}
 	// validate the registration
+	verifhook.Yield("ingest:before-register")
 	rm.AddRegistration(reg)
 	logger.Debugf("Adding registration %v\n", reg.IDString())
 	Stat().AddReg(reg.DecoyListVersion, reg.RegistrationSource)
